@@ -29,15 +29,19 @@ def run(ctx):
     # histories without keep-alives show any double acknowledgement of real notification messages undisguised
     pinned = dict(BASE, DevAckKeepAlive=True)
     gens = []
-    for nm, c, cap in (("exhaustive_no_keepalive", dict(pinned, Kinds={"data", "status"}, MaxFree=5 if q else 8, Links={"up", "down"}), 2000 if q else 50000),
-                       ("exhaustive_keepalive", dict(pinned, Subs={1}, SubChanges=False, Links={"up", "closed"}, Hows={"timeout", "fault"},
-                                                     MaxFree=6 if q else 8), 1000 if q else 30000)):
+    exh = [("exhaustive_no_keepalive", dict(pinned, Kinds={"data", "status"}, MaxFree=5 if q else 6, Links={"up", "down"}), 2000 if q else 30000),
+           ("exhaustive_keepalive", dict(pinned, Subs={1}, SubChanges=False, Links={"up", "closed"}, Hows={"timeout", "fault"},
+                                         MaxFree=6 if q else 7), 1000 if q else 20000)]
+    if not q:
+        exh.append(("exhaustive_deep", dict(pinned, Subs={1}, Kinds={"data"}, SubChanges=False, Links={"up", "down"}, Hows={"timeout", "dropped"},
+                                            MaxInflight=3, MaxNotif=5, MaxFree=9), 30000))
+    for nm, c, cap in exh:
         h, r = ctx.gen(nm, "GenClientAcks", c)
         gens.append((nm, {}, take(h, cap, ctx.seed)))
-    n = 150 if q else 5000
+    n = 150 if q else 4000
     for nm, c in (("random_no_keepalive", dict(pinned, Kinds={"data", "status"}, MaxInflight=3, MaxNotif=14, MaxFail=8, MaxFree=30)),
                   ("random_keepalive", dict(pinned, MaxInflight=3, MaxNotif=14, MaxFail=8, MaxFree=30))):
-        h, r = ctx.gen(nm, "GenClientAcks", c, simulate="num=%d" % max(20, n // 4))
+        h, r = ctx.gen(nm, "GenClientAcks", c, simulate="num=%d" % max(40, n // 8))
         gens.append((nm, {}, take(h, n, ctx.seed)))
     ctx.cov["exhaustive"] = True
 
